@@ -455,6 +455,18 @@ impl<T: Elem + SatisfyTraits<Tr>, M: MX, Tr: TrX + ?Sized> World<T, M, Tr> {
 
     /// run one edge on this world (model updated alongside)
     pub fn apply(&mut self, e: &Edge, out: &mut Out) {
+        // operations that only read (shared accessors, shared iteration, reports) never need the backend's WRITE pointer
+        let read_only = matches!(M::KIND, BK::Track) && matches!(e,
+            Edge::Get(_, GetKind::Get | GetKind::At | GetKind::Index, _) | Edge::IterAll(_, IterKind::Iter | IterKind::IntoIterRef) | Edge::TypeReports(0) | Edge::Bytes { variant: 0, .. });
+        let w0 = track::AS_MUT_CALLS.with(|c| c.get());
+        self.apply_inner(e, out);
+        if read_only {
+            let n = track::AS_MUT_CALLS.with(|c| c.get()) - w0;
+            if n != 0 { out.fail(Class::Mem, "write-accessor-on-read", format!("a read-only operation called Mem::as_mut_ptr {n} time(s): a shared borrow of the vector asked its backend for write access")); }
+        }
+    }
+
+    fn apply_inner(&mut self, e: &Edge, out: &mut Out) {
         if !matches!(e, Edge::History { .. }) && self.ma.iter().chain(self.mb.iter()).any(|m| matches!(m, Mv::CloneOf(_))) { self.pin_models(); }
         match *e {
             Edge::History { a, b, c, d } => {
